@@ -13,6 +13,13 @@ def reverseCmp : Cmp where
   sep := fun a _ => a
   succ := fun a => a
 
+/-- shorter keys first, keys of equal length bytewise (neither the bytewise order nor its reverse); separator and
+    successor are the identity on the first argument -/
+def lenFirstCmp : Cmp where
+  cmp := fun a b => if a.length < b.length then .lt else if b.length < a.length then .gt else cmpBytes a b
+  sep := fun a _ => a
+  succ := fun a => a
+
 /-- filter = list of (first byte + 1), 0 for the empty key; may-match = membership -/
 def firstBytePolicy : FilterPolicy where
   name := "verif.FirstByte"
